@@ -307,7 +307,7 @@ func (g *Gen) Value(t *Ty, depth int) *J {
 			j = Str("")
 		} else {
 			o := vh.Pick(g.R, s.Options)
-			if !g.Canonical && g.R.Chance(40) {
+			if !g.Canonical && g.R.Chance(40) && !s.PrefixedIsShort(o.Name) {
 				j = Str(s.Prefix + o.Name)
 			} else {
 				j = Str(o.Name)
